@@ -317,7 +317,8 @@ def rf30(run):
     rule = 'RF30'
     run.rule(rule, 'generator: clone_bbs definitely skips destination blocks whose last instruction is MIR_RET or MIR_JRET (evaluated over '
                    'all opcodes), because target_make_prolog_epilog restores the callee-saved registers and the stack pointer before one '
-                   'return instruction only')
+                   'return instruction only; it also skips blocks ending in MIR_SWITCH or MIR_JMPI, whose successors the edge '
+                   'reconstruction after the copy (jmp / fall-through / conditional branch) cannot express')
     gen = run.tu('gen')
     f = gen.func('clone_bbs')
     run.functions_analysed.add(('gen', f.name))
@@ -335,7 +336,7 @@ def rf30(run):
                 skips.append((n, sorted(keys)))
     if not skips:
         raise F.AnalysisBroken('clone_bbs: no opcode-dependent skip before the copy')
-    for name in ('MIR_RET', 'MIR_JRET'):
+    for name in ('MIR_RET', 'MIR_JRET', 'MIR_SWITCH', 'MIR_JMPI'):
         skipped = False
         for n, keys in skips:
             env = {k: codes[name] for k in keys}
@@ -345,9 +346,13 @@ def rf30(run):
         run.ob(rule, ('skip', name), skipped, {'destination block ends in': name, 'definitely skipped': skipped,
                                               'skip conditions': [F.src(n['c'][0])[:100] for n, k in skips]})
         if not skipped:
+            why = ('the function then has two returns, but the epilogue (restoring callee-saved registers and the stack pointer) is '
+                   'attached to one return only') if name in ('MIR_RET', 'MIR_JRET') else \
+                  ('the edges of the clone are rebuilt for three shapes only (jmp, fall-through, conditional branch with its label in '
+                   'operand 0): the clone of a block ending in %s gets a fall-through edge instead of its real successors and the '
+                   'optimiser propagates values along a CFG that lacks them' % name)
             run.violation(rule, f, 'cloning of a block ending in %s' % name,
-                          'clone_bbs can clone a block whose last instruction is %s: the function then has two returns, but the epilogue '
-                          '(restoring callee-saved registers and the stack pointer) is attached to one return only' % name, line=skips[0][0]['l'])
+                          'clone_bbs can clone a block whose last instruction is %s: %s' % (name, why), line=skips[0][0]['l'])
     # the epilogue site itself: target_make_prolog_epilog looks for the (single) return
     tm = gen.func('target_make_prolog_epilog')
     ok = any(x['k'] == 'BinaryOperator' and x['op'] in ('==', '!=') and 'MIR_RET' in F.src(x) for x in tm.walk())
@@ -995,4 +1000,221 @@ def rf62(run):
                           'memory write was recorded after its definition; the state it consults (%s) is a single slot overwritten at each '
                           'store, so stores between the definition and the last one are not taken into account: the combiner substitutes a '
                           'load across a store to the same location' % (F.src(e)[:90], ', '.join(slots) or 'none'), line=ret['l'])
+    return n
+
+
+# ---------------------------------------------------------------------------------------------
+# RF67: no dereference of an lvalue that the same straight-line code has just set to NULL
+# ---------------------------------------------------------------------------------------------
+
+def rf67(run, units=('mir',)):
+    rule = 'RF67'
+    run.rule(rule, 'contradiction rule: inside one basic block, after `L = NULL` the lvalue L is not dereferenced (`L->f`, `*L`, `L[i]`) before it '
+                   'is assigned again.  The validators reset the current function before calling the error function; an argument of that '
+                   'call that still reads it crashes instead of reporting the error')
+    n = 0
+    for u in units:
+        tu = run.tu(u)
+        for f in tu.func_list:
+            if not f.file.startswith('/repo') or f.cfg_raw is None:
+                continue
+            cfg = f.cfg
+            for B in cfg.blocks.values():
+                nulled = {}
+                for e in cfg.top_elems(B):
+                    # uses first (evaluation of the statement's operands precedes its own store)
+                    for x in cfg.local_walk(e):
+                        base = None
+                        if x['k'] == 'MemberExpr' and x.get('arrow'):
+                            base = F.strip(x['c'][0])
+                        elif x['k'] == 'UnaryOperator' and x['op'] == '*':
+                            base = F.strip(x['c'][0])
+                        elif x['k'] == 'ArraySubscriptExpr':
+                            base = F.strip(x['c'][0])
+                        if base is not None and base['k'] in ('DeclRefExpr', 'MemberExpr'):
+                            t = F.src(base)
+                            if t in nulled:
+                                n += 1
+                                run.functions_analysed.add((u, f.name))
+                                run.ob(rule, (f.name, x['l'], t), False)
+                                run.violation(rule, f, 'dereference of %s after %s = NULL' % (t, t), '`%s` is read at line %d although `%s` was set '
+                                              'to NULL at line %d in the same straight-line code: a null pointer dereference (for a validator: a crash '
+                                              'instead of the error callback)' % (F.src(x)[:60], x['l'], t, nulled[t]), line=x['l'])
+                    for x in cfg.local_walk(e):
+                        if x['k'] == 'BinaryOperator' and x['op'] == '=':
+                            l = F.strip(x['c'][0])
+                            if l['k'] in ('DeclRefExpr', 'MemberExpr'):
+                                t = F.src(l)
+                                r = F.strip(x['c'][1])
+                                isnull = F.const_value(r) == 0 and tu.type(l) is not None and tu.type(l).kind == 'ptr'
+                                if isnull:
+                                    nulled[t] = x['l']
+                                    n += 1
+                                    run.ob(rule, (f.name, x['l'], t, 'reset'), True, {'site': '%s:%d %s' % (f.relfile(), x['l'], f.name), 'reset': F.src(x)[:50]})
+                                else:
+                                    nulled.pop(t, None)
+                                    for k_ in list(nulled):
+                                        if k_.startswith(t + '->') or k_.startswith(t + '.'):
+                                            nulled.pop(k_)
+                        elif x['k'] == 'CallExpr':
+                            # a call may reassign non-local lvalues; keep only facts about locals and about lvalues passed nowhere
+                            for a in F.call_args(x):
+                                a = F.strip(a)
+                                if a['k'] == 'UnaryOperator' and a['op'] == '&':
+                                    nulled.pop(F.src(F.strip(a['c'][0])), None)
+    return n
+
+
+# ---------------------------------------------------------------------------------------------
+# RF68: every site of GVN's memory availability that reacts to calls reacts to the va instructions too
+# RF69: an alloca address passed to a call escapes for all later calls
+# ---------------------------------------------------------------------------------------------
+
+def _codes_true(tu, preds, conds, key_hint='code'):
+    """set of opcode names for which every condition in conds (text, truth) about the insn code holds"""
+    codes = tu.enum('MIR_insn_code_t')
+    out = set()
+    return out
+
+
+def rf68(run):
+    rule = 'RF68'
+    run.rule(rule, 'GVN memory availability: calls, va_start, va_arg and va_block_arg change memory that their operands do not describe.  The '
+                   'three sites that drop availability for such instructions (bb->call_p in build_func_cfg, the gen set in '
+                   'calculate_memory_availability, curr_available_mem in gvn_modify) are taken, by evaluation of their guard over all '
+                   'opcodes, for each of MIR_CALL, MIR_INLINE, MIR_JCALL, MIR_VA_START, MIR_VA_ARG, MIR_VA_BLOCK_ARG')
+    gen = run.tu('gen')
+    preds = EF.Predicates(gen)
+    codes = dict(gen.enum('MIR_insn_code_t'))
+    want = ['MIR_CALL', 'MIR_INLINE', 'MIR_JCALL', 'MIR_VA_START', 'MIR_VA_ARG', 'MIR_VA_BLOCK_ARG']
+    sites = []
+    f1 = gen.func('build_func_cfg')
+    for x in f1.walk():
+        if x['k'] == 'BinaryOperator' and x['op'] == '=' and F.src(F.strip(x['c'][0])).endswith('->call_p') and F.const_value(F.strip(x['c'][1])) == 1:
+            sites.append((f1, x, 'bb->call_p = TRUE'))
+    f2 = gen.func('calculate_memory_availability')
+    for x in f2.walk():
+        if x['k'] == 'CallExpr' and x.get('callee') == 'bitmap_clear' and F.src(F.strip(F.call_args(x)[0])).endswith('->gen') and x['l'] > f2.line + 8:
+            # the clear inside the instruction loop (the one at the head of the block loop is the initialisation)
+            sites.append((f2, x, 'bitmap_clear (bb->gen) inside the instruction loop'))
+    f3 = gen.func('gvn_modify')
+    for x in f3.walk():
+        if x['k'] == 'CallExpr' and x.get('callee') == 'bitmap_clear' and 'curr_available_mem' in F.src(F.strip(F.call_args(x)[0])):
+            sites.append((f3, x, 'bitmap_clear (curr_available_mem)'))
+    n = 0
+    seen_funcs = set()
+    for f, node, what in sites:
+        # the guard: innermost enclosing IfStmt whose then-branch contains the node
+        par = f.parent
+        cur = node['i']
+        guard = None
+        while cur is not None:
+            p_ = par.get(cur)
+            if p_ is None:
+                break
+            pn = f.nodes[p_]
+            if pn['k'] == 'IfStmt' and pn['c'][1] is not None and any(y is node for y in F.walk(pn['c'][1])):
+                guard = pn
+                break
+            cur = p_
+        if guard is None:
+            if f is f2:
+                continue   # the unconditional clear at the head of the block loop
+            raise F.AnalysisBroken('%s: guard of `%s` not found' % (f.name, what))
+        keys = sorted({F.src(y) for y in F.walk(guard['c'][0]) if y['k'] == 'MemberExpr' and y['n'] == 'code'} | {'insn->code'})
+        seen_funcs.add(f.name)
+        run.functions_analysed.add(('gen', f.name))
+        for nm in want:
+            v = preds.eval(guard['c'][0], {k: codes[nm] for k in keys}, frozenset())
+            n += 1
+            ok = bool(v)
+            run.ob(rule, (f.name, node['l'], nm), ok, {'site': '%s:%d %s' % (f.relfile(), node['l'], f.name), 'effect': what, 'guard': F.src(guard['c'][0])[:80],
+                                                      'opcode': nm, 'taken': ok} if nm in ('MIR_CALL', 'MIR_VA_BLOCK_ARG') or not ok else None)
+            if not ok:
+                run.violation(rule, f, '%s not applied to %s' % (what, nm), '%s executes `%s` under `%s`, which %s for %s: the instruction changes memory '
+                              'its operands do not describe, so a value loaded or stored before it stays "available" and a load after it is '
+                              'replaced by the stale value at -O2/-O3' % (f.name, what, F.src(guard['c'][0])[:80],
+                                                                          'is false' if v is not None else 'cannot be evaluated', nm), line=node['l'])
+    if seen_funcs != {'build_func_cfg', 'calculate_memory_availability', 'gvn_modify'}:
+        raise F.AnalysisBroken('memory-availability reset sites found only in %s' % sorted(seen_funcs))
+    return n
+
+
+def rf69(run):
+    rule = 'RF69'
+    run.rule(rule, 'dead store elimination: alloca memory counts as read by every later call once its address can be known outside the '
+                   'function.  The two ways out are a store of an alloca-derived value into memory and a call argument; gvn_modify sets '
+                   'full_escape_p for both (update_call_mem_live alone looks only at the arguments of the call at hand)')
+    gen = run.tu('gen')
+    f = gen.func('gvn_modify')
+    run.functions_analysed.add(('gen', f.name))
+    sets = [x for x in f.walk() if x['k'] == 'BinaryOperator' and x['op'] == '=' and F.src(F.strip(x['c'][0])).endswith('full_escape_p')
+            and F.const_value(F.strip(x['c'][1])) == 1]
+    via_store, via_call = [], []
+    from rf_proto import dominating_conditions
+    cfg = f.cfg
+    for x in sets:
+        conds = dominating_conditions(cfg, cfg.block_of(x), selective=True)
+        txt = ' && '.join(c for c, t in conds if t)
+        if 'alloca_arg_p' in txt and 'MIR_call_code_p' in txt.replace(' ', '') or ('alloca_arg_p' in txt):
+            via_call.append(x)
+        if 'alloca_flag' in txt and 'ops[0].mode' in txt:
+            via_store.append(x)
+    n = 0
+    for what, lst, why in (('store of an alloca-derived value', via_store, 'a pointer to the alloca block is stored in memory'),
+                           ('alloca-derived call argument', via_call, 'the callee receives the address and can keep it')):
+        n += 1
+        ok = bool(lst)
+        run.ob(rule, (what,), ok, {'escape route': what, 'sets full_escape_p at': [x['l'] for x in lst]})
+        if not ok:
+            run.violation(rule, f, 'escape through %s' % what, 'gvn_modify does not set full_escape_p for the %s (%s): a store into the alloca '
+                          'block made after that point and read by a later call that does not receive the address is removed as dead'
+                          % (what, why), line=f.line)
+    return n
+
+
+# ---------------------------------------------------------------------------------------------
+# RF70: ssa_combine does not fold through a phi of the loop the definition sits in
+# ---------------------------------------------------------------------------------------------
+
+def rf70(run):
+    rule = 'RF70'
+    run.rule(rule, 'ssa_combine runs after the transformation to conventional SSA: the register of a loop phi is overwritten by the phi copy at '
+                   'the end of the latch block.  cycle_phi_p, the guard of the address folding (var_plus_const / var_plus_var), answers TRUE '
+                   'both for a phi with an operand defined in its own block (one-block loop) and for a phi whose block has an incoming back '
+                   'edge (loop of several blocks); every use of a phi-defined value from another block in the folders consults it')
+    gen = run.tu('gen')
+    f = gen.func('cycle_phi_p')
+    run.functions_analysed.add(('gen', f.name))
+    from rf_proto import dominating_conditions
+    cfg = f.cfg
+    own, back = [], []
+    for bid, ret in return_blocks(f).items():
+        v = F.const_value(F.strip(ret['c'][0]))
+        if not v:
+            continue
+        conds = [c for c, t in dominating_conditions(cfg, bid) if t]
+        txt = ' '.join(conds)
+        if 'back_edge_p' in txt:
+            loops = [l for l in f.walk() if l['k'] == 'ForStmt' and any(y is ret for y in F.walk(l))]
+            if loops and 'in_edges' in F.src(loops[-1]['c'][0] if loops[-1]['c'][0] is not None else loops[-1]):
+                back.append(ret)
+        if '->bb' in txt and 'def' in txt:
+            own.append(ret)
+    n = 0
+    for what, lst in (('operand defined in the phi\'s own block', own), ('incoming back edge of the phi\'s block', back)):
+        n += 1
+        run.ob(rule, (what,), bool(lst), {'case': what, 'return TRUE at': [r['l'] for r in lst]})
+        if not lst:
+            run.violation(rule, f, 'loop phi: %s' % what, 'cycle_phi_p has no `return TRUE` for the case "%s": ssa_combine folds `t = p + i` into a '
+                          'memory operand placed after the loop although the phi copy has already overwritten i' % what, line=f.line)
+    # the folders consult the guard for every definition taken from another block
+    for fn in ('var_plus_const', 'var_plus_var'):
+        g = gen.func(fn)
+        run.functions_analysed.add(('gen', fn))
+        calls = [x for x in g.walk() if x['k'] == 'CallExpr' and x.get('callee') == 'cycle_phi_p']
+        n += 1
+        run.ob(rule, (fn,), bool(calls), {'folder': fn, 'guard calls': len(calls)})
+        if not calls:
+            run.violation(rule, g, 'unguarded folding', '%s does not consult cycle_phi_p' % fn, line=g.line)
     return n
